@@ -103,6 +103,93 @@ def check_width_table(mm, rep):
     rep.oblige(built, "R15.2", "result-word", arm.where(), "the merged word is not built from the combined width and the merged usage (with a conflict when the usages do not merge)", sample={"rule": "R15.2", "result": "TE::word(width, usage)"})
 
 
+def check_sized_usage_widths(fx, rep):
+    """R15.2 (sized usages): a usage with a fixed ABI width has ONE width in the library: the table of WordUse::size agrees with
+    the independent oracle, and every word built for such a usage with a constant width uses that width (or asks the table).
+    Otherwise compatible evidence (`function` and `bytes24`) conflicts and contradictory evidence is accepted."""
+    import os
+    from .. import core as _core
+    WU = "tc::expression::WordUse"
+    sz = next((b for b in fx.fn_bodies() if b.get("impl_self") == WU and (fx.fns.get(b["def"], {}).get("output") or "").replace(" ", "") == "std::option::Option<usize>" and len(b["hir"]["params"]) == 1), None)
+    if not rep.anchor("R15.2", sz is not None, "the usage -> width function (WordUse -> Option<usize>)"):
+        return
+    rep.fn(sz["def"])
+    table = {}
+    t = T.term(sz["hir"]["value"], T.Env(), set())
+
+    def cval(x):
+        while isinstance(x, tuple) and x[0] in ("ref", "deref", "cast") and len(x) > 1:
+            x = x[1]
+        if isinstance(x, tuple) and x[0] == "lit":
+            try:
+                return int(x[1])
+            except (TypeError, ValueError):
+                return None
+        if isinstance(x, tuple) and x[0] == "path":
+            return fx.const_value(x[1])
+        if isinstance(x, tuple) and x[0] == "struct" and str(x[2]).endswith("Some") and x[3]:
+            return cval(x[3][0][1])
+        return None
+
+    def visit(x):
+        if not isinstance(x, tuple):
+            return
+        if x[0] == "match":
+            for lbl, body in x[2]:
+                v = cval(body)
+                if v is not None:
+                    for alt in str(lbl).split("|"):
+                        table[alt.strip().split("::")[-1]] = v
+        for y in x:
+            if isinstance(y, tuple):
+                visit(y)
+
+    visit(t)
+    oracle = {}
+    with open(os.path.join(_core.VERIF, "tables", "usage_sizes.tsv")) as fh:
+        for line in fh:
+            if line.strip() and not line.startswith("#"):
+                u, bits = line.split()
+                oracle[u] = int(bits)
+    rep.oblige(table == oracle, "R15.2", "usage-sizes", F.loc(sz["span"]), f"the widths of the sized usages are {table}; the ABI widths are {oracle}: evidence of a usage and evidence of its width no longer agree", sample={"rule": "R15.2", "usage_sizes": table, "oracle": "tables/usage_sizes.tsv"})
+    n = 0
+    for b in fx.fn_bodies():
+        hir = b.get("hir")
+        if not hir or b.get("from_expansion"):
+            continue
+        root = hir["value"]
+        mutated = None
+        for node, ps in F.walk(root):
+            w = u = None
+            if node.get("k") == "Call" and F.strip_generics(F.callee_def(node) or "") == TE + "::word" and len(node["args"]) == 2:
+                w, u = node["args"]
+            elif node.get("k") == "Struct" and node.get("adt") == TE and node.get("variant") == "Word":
+                w = next((f["e"] for f in node["fields"] if f["field"] == "width"), None)
+                u = next((f["e"] for f in node["fields"] if f["field"] == "usage"), None)
+            if w is None or u is None:
+                continue
+            if mutated is None:
+                mutated = T.mutated_locals(root)
+            env = T.env_at(ps, node, mutated)
+            ut = T.term(u, env, mutated)
+            if not (isinstance(ut, tuple) and ut[0] == "path" and str(ut[1]).startswith(WU + "::")):
+                continue
+            usage = str(ut[1]).split("::")[-1]
+            if usage not in oracle:
+                continue
+            wt = T.term(w, env, mutated)
+            asks = isinstance(wt, tuple) and wt[0] == "call" and isinstance(wt[1], str) and F.strip_generics(wt[1]) == sz["def"] and wt[2] and wt[2][0] == ut
+            v = cval(wt)
+            if not asks and v is None:
+                continue  # a width computed at run time: evidence about this particular value, not a statement about the usage
+            n += 1
+            rep.fn(b["def"])
+            k = sum(1 for x in rep.instances.get("R15.2", []) if x.startswith(f"sized-word:{F.strip_generics(b['def'])}#")) + 1
+            rep.oblige(asks or v == oracle[usage], "R15.2", f"sized-word:{F.strip_generics(b['def'])}#{k}", F.loc(node["span"]), f"`{b['def']}` builds a `{usage}` word of {v} bits; a {usage} is {oracle[usage]} bits wide everywhere else: this judgement conflicts with compatible evidence of the true width and agrees with contradictory evidence", sample={"rule": "R15.2", "fn": b["def"], "usage": usage, "width": "size()" if asks else v} if n <= 4 else None)
+    rep.floor("R15.2", n, 4, "words built for a fixed-width usage with a constant width")
+
+
+
 def check_usage_oracle(rep, usages, table):
     from .. import tables as TB
 
@@ -251,6 +338,7 @@ def check(fx, rep, tier):
     if table is not None:
         check_usage_oracle(rep, usages, table)
     check_width_table(mm, rep)
+    check_sized_usage_widths(fx, rep)
     # R15.3 = absorption audit under this property's id
     class Proxy:
         def __init__(self, rep):
